@@ -528,6 +528,40 @@ def run(repo: Repo, rep: Report, tier: str) -> None:
                       f"{len(paths)} key combinations, none has both" if not bad12 else
                       f"a path stores {list(bad12[0])}: with the left operand a constant and the right one a signal the constant is ignored, `5 < a` is evaluated as `signal-0 < a`", f12.loc(init))
     rep.floor("C01-R12", "condition dicts analysed", n12, 2)
+    # the placeholder signal stands for nothing: where a configurator writes the literal 'signal-0' as first signal (both operands are constants), the row must not
+    # compare it with an operand (`signal-0 OP right` is `0 OP right`, not `left OP right`); the outcome is decided and the row compares the placeholder with 0
+    n12b = 0
+    for fname in ("PlanEntityEmitter._configure_decider", "PlanEntityEmitter._configure_decider_multi_condition"):
+        f12 = repo.func(fname)
+        for st in walk_local(f12.node):
+            if isinstance(st, ast.Assign) and isinstance(st.targets[0], ast.Subscript) and isinstance(st.targets[0].slice, ast.Constant) and st.targets[0].slice.value == "first_signal" \
+                    and isinstance(st.value, ast.Constant) and st.value.value == "signal-0":
+                n12b += 1
+                pm12b = parents_map(f12.node)
+                blk = pm12b[st]
+                seq = next(getattr(blk, fld) for fld in ("body", "orelse", "finalbody") if st in getattr(blk, fld, []))
+                consts = [x for x in seq if isinstance(x, ast.Assign) and isinstance(x.targets[0], ast.Subscript) and isinstance(x.targets[0].slice, ast.Constant) and x.targets[0].slice.value == "constant"]
+                okp = bool(consts) and all(isinstance(x.value, ast.Constant) and x.value.value == 0 for x in consts)
+                rep.check(okp, "C01-R12", f"{f12.short}: a row on the placeholder signal-0 compares it with 0 (outcome decided at compile time)",
+                          "constant 0 next to the placeholder" if okp else
+                          f"the placeholder is compared with `{norm(consts[0].value) if consts else 'nothing'}`: with both operands constant (`p(7)` for `x > 5`, `between(11, 0, 10)`) the decider evaluates "
+                          "0 OP right instead of left OP right", f12.loc(st))
+    rep.floor("C01-R12", "placeholder rows in the configurators", n12b, 1)
+    # ... and an operand that resolves to a literal is recorded as a constant, not as a signal name
+    pmc = repo.func("EntityPlacer._place_multi_condition_decider")
+    cpmc = canon(pmc) if False else _c10r(pmc)
+    n12c = 0
+    for st in walk_local(pmc.node):
+        if isinstance(st, ast.Assign) and isinstance(st.targets[0], ast.Subscript) and isinstance(st.targets[0].slice, ast.Constant) and st.targets[0].slice.value in ("first_signal", "second_signal"):
+            tv = cpmc.text(st.value)
+            if "get_operand_for_combinator(" not in tv:
+                continue
+            n12c += 1
+            from .util import cguards as _g12c
+            okc = any((not pol) and g == f"isinstance({tv}, int)" for g, pol in _g12c(pmc, st))
+            rep.check(okc, "C01-R12", f"{pmc.short}: `{st.targets[0].slice.value}` receives a signal name only", "stored under `not isinstance(<resolved operand>, int)`" if okc else
+                      f"`{tv[:70]}` can be an inlined literal (a Signal parameter bound to a number): the integer lands in `{st.targets[0].slice.value}` and the blueprint cannot be built", pmc.loc(st))
+    rep.floor("C01-R12", "resolved operands stored as condition signals", n12c, 2)
 
     # ---------------- R13 --------------------------------------------------------------
     from .shared import borrow as _borrow1c
